@@ -31,7 +31,9 @@ PROPS["C08"] = dict(
           "non-trivial = >=2 groups. "
           "fz_c08_table: libFuzzer bytes -> Table operator>> / imcio_read_matrix / imcio_read_index (byte 0 selects); an input is rejected "
           "by an exception or the accepted object survives print->parse (shape, values to the printed digits, flags, names, ranges); "
-          "non-trivial = table with >=2 rows and a flag other than i / matrix that is neither symmetric nor a vector / index with >=2 groups."),
+          "non-trivial = table with >=2 rows and a flag other than i / matrix that is neither symmetric nor a vector / index with >=2 groups."
+          " fieldwidth_beadcount: gro / pdb round trips with 99999..131072 beads (the five-digit atom-number columns wrap at 100000), "
+          "beads and coordinates a pure function of the compact case; a handful of cases per run."),
     assumptions=COMMON_ASSUME + [
         "lammps dump is exercised with orthorhombic/open boxes only (VOTCA's reader rejects the triclinic header, the writer never emits it)",
         "pdb carries no box (PDBWriter::Write emits no CRYST1 record); xyz carries positions and 3 characters of the name only",
